@@ -507,7 +507,20 @@ pub fn c01(c: &Collector, g: &mut Guard) {
         charsets: default_charsets(),
         hidden_cursor: false,
     };
-    let bases = gen_bases(c, &spec);
+    // every cursor position on the small screens, the corners on the large ones
+    let mut bases = {
+        let mut small = spec.clone();
+        small.geoms = spec.geoms.iter().cloned().filter(|g| g.0 <= 5).collect();
+        gen_bases(c, &small)
+    };
+    {
+        let mut big = spec.clone();
+        big.geoms = spec.geoms.iter().cloned().filter(|g| g.0 > 5).collect();
+        big.cursors = CursorSel::Corners;
+        if !big.geoms.is_empty() {
+            bases.extend(gen_bases(c, &big));
+        }
+    }
     // seed scripts themselves must not panic
     if c.counter("seed_scripts_panicked") > 0 {
         c.violation(Violation {
